@@ -996,6 +996,12 @@ def units(tier, seed):
         for scale in SCALES:
             for mask in MASK_TYPES:
                 yield ('A', b, scale, mask)
+    # F: every byte value 0..255 as graphic data (and as mask data) under all 16 flip/rotate
+    # settings x 3 mask types x {no crop, unaligned crop} - the byte-level tables (bit
+    # reversal for flips, per-byte pixel expansion) are finite and are swept completely
+    for flip in range(4):
+        for rotate in range(4):
+            yield ('F', flip, rotate)
     for k in range(0, len(sna2img_cases()), T_CHUNK):
         yield ('T', k)
     hc = skool2html_cases()
@@ -1031,6 +1037,27 @@ def unit_cases(unit):
             case = make_case(cfg, scale, mask, crop, tiles)
             if case is not None:
                 yield 'A/base{}/s{}/m{}/{}'.format(b, scale, mask, _crop_id(crop)), case
+    elif unit[0] == 'F':
+        _, flip, rotate = unit
+        cfg = dict(DEFAULTS, shape=(8, 4), flip=flip, rotate=rotate)
+        for masked in (0, 1):
+            rows = []
+            for j in range(4):
+                row = []
+                for c in range(8):
+                    i = j * 8 + c
+                    data = tuple(range(8 * i, 8 * i + 8))
+                    mask = tuple((v * 7 + 3) & 0xFF for v in data) if masked else None
+                    row.append((ATTRS[i % len(ATTRS)] if masked else ATTRS[0], data, mask))
+                rows.append(tuple(row))
+            tiles = tuple(rows)
+            for scale in (1, 2):
+                fw, fh = _dims_after(cfg['shape'], rotate, scale)
+                for mask in (MASK_TYPES if masked else MASK_TYPES[:1]):
+                    for crop in ((0, 0, None, None), (3, 5, fw - 7, fh - 6)):
+                        case = make_case(cfg, scale, mask, crop, tiles)
+                        if case is not None:
+                            yield 'F/bytes/flip{}/rot{}/masked{}/s{}/m{}/{}'.format(flip, rotate, masked, scale, mask, _crop_id(crop)), case
     elif unit[0] == 'T':
         for item in sna2img_cases()[unit[1]:unit[1] + T_CHUNK]:
             yield item
